@@ -33,6 +33,7 @@
 //   Inspector        a StorageReflectSession subclass attached *without* a socket; it sits in the server as one more
 //                    (silent) session and reads state no command exposes, in process:
 //                      Snapshot(TreeSnap&)  walk of GetGlobalRoot(): path -> payload bytes, ordered index, subscriber table, depth
+//                                           (returns false if the inspector itself was detached, e.g. kicked by a client)
 //                      NodeCountOf(session) the session's private node counter (_currentNodeCount)
 //                      CachedTablesWithKey  how many tables of the shared subscriber-table cache mention a session id
 //                    Because the inspector is attached first and never leaves, the global root never becomes empty,
@@ -205,10 +206,12 @@ static inline std::string CheckSubscriberInvariant(const TreeSnap & snap, const 
 class Inspector : public StorageReflectSession {
 public:
    DataNode & Root() { return GetGlobalRoot(); }
-   void Snapshot(TreeSnap & out) { out.clear(); Walk(GetGlobalRoot(), out); }
+   // false (and an empty snapshot) when the inspector itself is no longer attached -- it was kicked: treat as a violation
+   bool Snapshot(TreeSnap & out) { out.clear(); if (!Attached()) return false; Walk(GetGlobalRoot(), out); return true; }
+   bool Attached() const { return IsAttachedToServer() && GetSessionNode()() != NULL; }
    uint32 NodeCountOf(const StorageReflectSession & s) const { return rbpriv::SessionNodeCount(rbpriv::NodeCountTag(), s); }
    // number of tables in the shared subscriber-table cache that contain an entry for session id `id` (-1: not attached)
-   int CachedTablesWithKey(uint32 id, uint32 * optTotal = NULL) const { return rbpriv::CachedTablesWithKey(rbpriv::CacheTag(), *this, id, optTotal); }
+   int CachedTablesWithKey(uint32 id, uint32 * optTotal = NULL) const { return Attached() ? rbpriv::CachedTablesWithKey(rbpriv::CacheTag(), *this, id, optTotal) : -1; }
    AbstractReflectSessionRef SessionById(uint32 id) const { return GetSession(id); }
    uint32 NumSessions() const { return GetSessions().GetNumItems(); }
    // the SUBSCRIBE: parameter names of a session, prefix stripped (what the session itself believes it subscribed to)
